@@ -41,6 +41,7 @@ type Scenario struct {
 	Config    string `json:"config"`
 	Calls     int    `json:"calls"`
 	Publishes int    `json:"publishes"`
+	Cancels   bool   `json:"cancels"` // some Direct / Next calls run under a context that is cancelled at a random point
 	Seed      int64  `json:"seed"`
 }
 
@@ -54,6 +55,8 @@ func errName(err error) string {
 	switch {
 	case err == nil:
 		return "nil"
+	case errors.Is(err, context.Canceled):
+		return "cancelled"
 	case errors.Is(err, announce.ErrClosed):
 		return "closed"
 	}
@@ -65,6 +68,7 @@ var pubAddr = multiaddr.StringCast("/ip4/8.8.4.4/tcp/3103")
 type call struct {
 	op       string
 	returned bool
+	cancel   context.CancelFunc // Direct / Next calls under a context the scenario may cancel
 }
 
 // Execute runs one scenario; key/detail report a failure of the run itself (a call that never returns, ...).
@@ -168,6 +172,10 @@ func Execute(sc Scenario) (log []gate.Event, key, detail string) {
 		calls = append(calls, c)
 		k := len(calls)
 		ci := cids[s.Rng.Intn(len(cids))]
+		ctx := ctx
+		if sc.Cancels && (op == "directOk" || op == "next") && s.Rng.Intn(2) == 0 {
+			ctx, c.cancel = context.WithCancel(ctx)
+		}
 		s.Go(op, func() {
 			mu.Lock()
 			callOf[gate.Goid()] = k
@@ -218,6 +226,17 @@ func Execute(sc Scenario) (log []gate.Event, key, detail string) {
 		if pubsLeft > 0 {
 			nenv++
 		}
+		var cancellable []int
+		mu.Lock()
+		for i, c := range calls {
+			if c.cancel != nil && !c.returned {
+				cancellable = append(cancellable, i)
+			}
+		}
+		mu.Unlock()
+		if len(cancellable) > 0 {
+			nenv++
+		}
 		if len(parked) == 0 && nenv == 0 {
 			if len(pending()) == 0 {
 				break
@@ -236,6 +255,14 @@ func Execute(sc Scenario) (log []gate.Event, key, detail string) {
 		pick := s.Rng.Intn(2*len(parked) + nenv)
 		if pick < 2*len(parked) {
 			s.Release(parked[pick/2])
+		} else if len(cancellable) > 0 && pick == 2*len(parked)+nenv-1 {
+			i := cancellable[s.Rng.Intn(len(cancellable))]
+			s.Record(gate.Event{Ev: "env.cancel", P: i + 1})
+			mu.Lock()
+			cf := calls[i].cancel
+			calls[i].cancel = nil
+			mu.Unlock()
+			cf()
 		} else if pick-2*len(parked) == 0 && callsLeft > 0 {
 			callsLeft--
 			op := ops[s.Rng.Intn(len(ops))]
@@ -350,7 +377,7 @@ func Run(args []string) *rep.Report {
 	enc := json.NewEncoder(f)
 	events := 0
 	for i := si; i < *count; i += sn {
-		sc := Scenario{Config: *config, Seed: *seed*100019 + int64(i), Calls: 3 + i%6, Publishes: i % 4}
+		sc := Scenario{Config: *config, Seed: *seed*100019 + int64(i), Calls: 3 + i%6, Publishes: i % 4, Cancels: i%3 == 2}
 		log, key, detail := Execute(sc)
 		r.Eval(true)
 		if i%29 == 0 {
